@@ -65,6 +65,11 @@ fn skip_psk_id(r: &mut Rd) -> Result<(), RErr> {
     Ok(())
 }
 
+/// Skip one PreSharedKeyID (RFC 9420 section 8.4).
+pub fn skip_proposal_psk_id(r: &mut Rd) -> Result<(), RErr> {
+    skip_psk_id(r)
+}
+
 pub fn skip_proposal(r: &mut Rd) -> Result<u16, RErr> {
     let t = r.u16()?;
     match t {
